@@ -20,11 +20,12 @@ CHECKS = {
         "level": "Differential search over optimizer configurations: generated grammars (optimizer-bait and full "
         "profiles) x {default pipeline, each exported pass alone, three random pass lists}, each configuration "
         "in its own process, compared with optimizer=None for the interpreter and for generated code (outcome "
-        "class and tree).",
+        "class and tree); plus an exhaustive matrix of skip-until shapes (stop-string sets x every input up to "
+        "4 (quick) / 5 (thorough) characters x every start offset).",
         "note": "Trusted: process isolation per configuration (the optimizer mutates process-wide rule objects); "
         "failure positions are deliberately not compared.",
-        "technique": "Hypothesis-generated grammars and pass lists, differential oracle (optimizer on vs off), "
-        "structural shrinking",
+        "technique": "Hypothesis-generated grammars and pass lists + exhaustive small-scope skip-until matrix, "
+        "differential oracle (optimizer on vs off), structural shrinking",
         "ref": "DESIGN.md 4 C02",
     },
     "C03": {
@@ -49,10 +50,12 @@ CHECKS = {
     "C05": {
         "level": "Hypothesis-generated stack grammars compared in four modes with a reference evaluator whose "
         "stack is immutable (so every undo is correct by construction), plus an operation-level check of "
-        "(result, position, stack) for each of the seven operations on prepared parser states.",
+        "(result, position, stack) for each of the seven operations on prepared parser states, random nested "
+        "push/pop/rollback histories compiled to grammars, and all such histories up to 9 (quick) / 11 "
+        "(thorough) steps enumerated exhaustively, each observed through PEEK_ALL / POP_ALL / PEEK[..].",
         "note": "Trusted: reference evaluator; PEEK[a..b] outside the stack is unspecified and discarded.",
-        "technique": "Hypothesis generation against a reference-model oracle + operation-level specification "
-        "check",
+        "technique": "Hypothesis generation + exhaustive small-scope history enumeration against a "
+        "reference-model oracle + operation-level specification check",
         "ref": "DESIGN.md 3, 4 C05",
     },
     "C06": {
@@ -87,9 +90,11 @@ CHECKS = {
     "C11": {
         "level": "Generated-text search for totality: every prefix of bundled and generated grammars, mutations, "
         "token soups, Hypothesis text; outcome must be a Parser or a PestGrammarError whose message renders and "
-        "points inside the text; with and without the optimizer; step budget decides termination.",
-        "note": "Trusted: nothing beyond the outcome classification; RecursionError from pathological nesting is "
-        "not generated.",
+        "points inside the text (column base calibrated from the implementation); hand-picked endings, huge "
+        "numbers, surrogates, recursive stop rules, flat chains of 2,500 operands; with and without the "
+        "optimizer; step budget decides termination (wall-clock time-outs are counted as inconclusive).",
+        "note": "Trusted: nothing beyond the outcome classification. RecursionError on deeply nested texts (>= 100 "
+        "nesting characters) is the open known finding K04 and only counted; anywhere else it is a violation.",
         "technique": "exhaustive truncation + mutation + Hypothesis text generation, totality oracle",
         "ref": "DESIGN.md 4 C11",
     },
@@ -97,7 +102,8 @@ CHECKS = {
         "level": "Exhaustive membership sweeps over all 1,114,112 code points for the 12 explicit built-in character "
         "rules in four modes; boundary-focused (quick) / exhaustive (thorough) sweeps for a Hypothesis-generated "
         "family of ranges, literals and merged choices and for Unicode property rules (cross-mode equality); "
-        "ASCII case-insensitive literals; every escape form.",
+        "a deterministic matrix of 19 regex-special characters x 9 syntactic roles; case-insensitive literals "
+        "(ASCII folding only, exact member sets for every code point); every escape form.",
         "note": "Trusted: explicit set definitions taken from the pest book; Unicode property rules are only "
         "compared across modes.",
         "technique": "exhaustive code-point enumeration + Hypothesis-generated character classes against explicit "
